@@ -465,14 +465,4 @@ theorem int_lexeme_agree (raw : Bytes) (h : intText raw = true) :
           right; omega
         rw [this]; rfl
 
-/-- an IntValue lexeme that is finite as a double satisfies the numeric hypothesis, and evaluates -/
-theorem numLeafOK_int_of_lexeme (raw : Bytes) (h : intText raw = true) (hf : Spec.floatLitFinite raw = true) :
-    numLeafOK .int raw = true ∧ ∀ ch p, constErr (.mk .int raw ch p) = false := by
-  obtain ⟨h1, h2⟩ := int_lexeme_agree raw h
-  refine ⟨?_, fun ch p => ?_⟩
-  · simp [numLeafOK, h1, hf]
-  · unfold constErr
-    simp only
-    cases h3 : parseIntErr 64 raw <;> simp_all
-
 end Gql.Validate
